@@ -228,8 +228,10 @@ CondPhase(t, fr, ph, L, next) ==
     [] fr.sub = "wait" ->
          \* the condition returned (or raised)
          IF r.k = "raise" THEN Leave(t, fr, r)
-         ELSE IF r.v = 2 /\ ~FN(fr.f).async
-           THEN Leave(t, fr, Raise("ValueError", fr.c))       \* coroutine object on a sync callable
+         ELSE IF r.v = 2 /\ (IsInvPhase(ph) \/ ~FN(fr.f).async)
+           \* coroutine object on a sync callable; invariants are never awaited (asynchronous invariants are not
+           \* supported), so a coroutine object is rejected there whatever the method is - never taken as truthy
+           THEN Leave(t, fr, Raise("ValueError", fr.c))
          ELSE IF r.v = 3
            THEN Leave(t, fr, Raise("ValueErrorC", fr.c))      \* truth test of the result failed (chained)
          ELSE IF r.v = 5 /\ FN(fr.f).async /\ ~SwFutureNotAwaited
@@ -452,7 +454,7 @@ OutName(fr) == CASE fr.u = "body" -> "body.out" [] fr.u = "cond" -> "cond.out"
 Produce(fr) ==
   CASE fr.u = "body" -> FN(fr.f).out[fr.a + 1]
     [] fr.u = "cond" ->
-         IF CON(fr.f).rv = "coro" /\ ~FN(fr.g).async THEN Ret(2) ELSE
+         IF CON(fr.f).rv = "coro" /\ (fr.sub = "inv" \/ ~FN(fr.g).async) THEN Ret(2) ELSE
          IF CON(fr.f).rv = "badbool" THEN Ret(3) ELSE
          IF CON(fr.f).rv = "future" THEN Ret(4) ELSE
          IF CON(fr.f).rv = "futureraise" THEN Ret(5) ELSE
